@@ -95,6 +95,23 @@ theorem readfields_spec_ws (ifs line : List Char) (names : Option Nat) (raw : Bo
     rcases this with h | h | h <;> exact absurd h (by decide)
 
 
+/-- Lines without a backslash: neither the `-r` flag nor a backslash in IFS matters; the only
+    hypothesis left is the delimiter condition (findings C23-adjacent-delims, -leading-delim,
+    -trailing-delim-single, -trailing-delim-rest, -array-empty-fields). -/
+theorem readfields_spec_no_backslash (ifs line : List Char) (names : Option Nat) (raw : Bool)
+    (hk : ∀ k, names = some k → 1 ≤ k)
+    (hb : line.contains '\\' = false)
+    (hi : isolated ifs .start (unescape true line) = true) :
+    ∃ fs, readFields ifs line (nOf names) raw = .ok fs ∧
+      valuesOf names fs = specRead ifs line names raw := by
+  have h := readfields_spec_partial ifs line names true hk ⟨Or.inl rfl, Or.inl rfl, hi⟩
+  cases raw with
+  | true => exact h
+  | false =>
+    rw [readFields_no_backslash ifs line _ hb, specRead_no_backslash ifs line names hb]
+    exact h
+
+
 /-- The builtin as a whole on a clean first line: `read` through readLine + ReadFields (+ the
     REPLY loop) assigns what the specification of the builtin says, consumes the same input and
     returns the same status. -/
